@@ -90,7 +90,7 @@ CLAIMED.update({
 
 CLAIMED.update({
     "C16": ("Coq proof (term-list model of the coupling matrix and the per-species factor; finite-sum algebra over R: exchange of the species and element sums, the weight cancels) + extracted-model correspondence on the emitted terms + exact rational solve-and-apply oracle on generator output and rendered naunet_renorm.cpp",
-            "Theorems in Props/C16.v, for arbitrary real abundances, any solution r of the generated system M r = ref and any Hn <> 0: after the generated update the total of every element is Hn x ref_i (so its abundance relative to hydrogen nuclei is the reference ratio) - with no assumption on the mass numbers, the weight (mass number, or 1 for a dust grain) being provably non-zero and cancelling; electrons are untouched; with additive mass numbers r = 1 solves the system exactly when the totals already match and then changes nothing. Tied to _prepare_renorm_content and the rendered InitRenorm / RenormAbundance (entry positions through the rendered macros).",
+            "Theorems in Props/C16.v, for arbitrary real abundances, any solution r of the generated system M r = ref and any Hn <> 0: after the generated update the total of every element is Hn x ref_i (so its abundance relative to hydrogen nuclei is the reference ratio) - with no assumption on the mass numbers, the weight (mass number, or 1 for a dust grain) being provably non-zero and cancelling; electrons are untouched; with additive mass numbers r = 1 solves the system exactly when the totals already match and then changes nothing. Text level (matrix_text_is_entry, factor_text_is_factor): the strings "0.0 + q * ab[IDX_k] / d / Hnuclei + ..." and "q * rptr[IDX_ELEM_j] / d + ...", lexed and parsed as C, have exactly these values, for every list of terms. Tied to _prepare_renorm_content (terms and exact text) and the rendered InitRenorm / RenormAbundance (entry positions through the rendered macros).",
             "The dense linear solve of SUNDIALS is not modelled (the theorem is for any exact solution; the oracle uses exact rational elimination; channel C runs the rendered Naunet::SetReferenceAbund / Renorm four times on one object against a stand-in with a floating-point dense solve); floating-point rounding outside the model; known finding: no identity when an element occurs only inside molecules; two fixed defects (grain mass number 0, empty factor).",
             "7 C16"),
 })
